@@ -69,15 +69,20 @@ class TranspilingEstimatorV2(BaseEstimatorV2):
     ) -> BasePrimitiveJob[PrimitiveResult[PubResult], Any]:
 
         def apply_pass_manager(pub: EstimatorPubLike) -> EstimatorPubLike:
-            if isinstance(pub, EstimatorPub):
-                return EstimatorPub(
-                    circuit=self._pass_manager.run(pub.circuit),
-                    observables=pub.observables,
-                    parameter_values=pub.parameter_values,
-                    precision=pub.precision,
-                    validate=False,
-                )
-            return self._pass_manager.run(circuits=pub[0]), *pub[1:]
+            pub = EstimatorPub.coerce(pub)
+            circuit = self._pass_manager.run(pub.circuit)
+            # The pass manager may place the circuit's qubits on other (and more) physical qubits.
+            # The observables must then be moved to the same physical qubits.
+            observables = pub.observables
+            if circuit.layout is not None:
+                observables = observables.apply_layout(circuit.layout)
+            return EstimatorPub(
+                circuit=circuit,
+                observables=observables,
+                parameter_values=pub.parameter_values,
+                precision=pub.precision,
+                validate=False,
+            )
 
         pubs = (apply_pass_manager(pub) for pub in pubs)
         return self._estimator.run(pubs, precision=precision)
